@@ -12,7 +12,7 @@ import itertools
 from loki.expression import (
     symbols as sym, get_pyrange, is_constant, SimplifyMapper
 )
-from loki.ir import nodes as ir, FindNodes, FindVariables, Transformer
+from loki.ir import nodes as ir, FindNodes, Transformer
 from loki.subroutine import Subroutine
 from loki.tools import dict_override
 
@@ -57,6 +57,28 @@ def invalidate_constants_map(lhs, constants_map):
         return
 
     constants_map.pop((lhs.basename, ()), None)
+
+
+def _merge_constants_maps(first, second):
+    """ Entries that two constants maps agree on """
+    return {key: value for key, value in first.items() if key in second and second[key] == value}
+
+
+def _modified_symbols(body):
+    """ The symbols that executing ``body`` may (re)define: assignment targets and loop variables """
+    symbols = [assign.lhs for assign in FindNodes(ir.Assignment).visit(body)]
+    symbols += [loop.variable for loop in FindNodes(ir.Loop).visit(body)]
+    return symbols
+
+
+def _has_iterations(bounds):
+    """ Establish that a loop with the given (propagated) bounds executes its body at least once """
+    if not (
+            is_constant(bounds.start) and is_constant(bounds.stop)
+            and (bounds.step is None or is_constant(bounds.step))
+    ):
+        return False
+    return len(get_pyrange(bounds)) > 0
 
 
 def _separate_literals(children):
@@ -106,11 +128,6 @@ class ConstantPropagationTransformer(Transformer):
     def visit_Assignment(self, o, **kwargs):
         constants_map = kwargs.get('constants_map', {})
         mapper = ConstantPropagationMapper()
-
-        rhs_symbols = FindVariables().visit(o.rhs)
-        if kwargs.get('within_loop', False) and o.lhs in rhs_symbols:
-            # In loop bodies, skip "increment" updates to the LHS value
-            return o
 
         # Resolve known constants on the RHS
         new_rhs = mapper(o.rhs, constants_map=constants_map)
@@ -165,48 +182,53 @@ class ConstantPropagationTransformer(Transformer):
 
         return o._rebuild(condition=new_condition, body=new_body, else_body=new_else_body)
 
+    def _visit_loop_body(self, o, modified, executes_once=False, **kwargs):
+        """
+        Visit the body of a loop with the constants that hold at the top of
+        every iteration, and leave in the constants map what holds once the
+        loop has been left.
+        """
+        constants_map = kwargs.get('constants_map', {})
+
+        # Nothing the loop (re)defines is a known constant at the top of an iteration
+        entry_constants_map = deepcopy(constants_map)
+        for symbol in modified:
+            invalidate_constants_map(symbol, entry_constants_map)
+
+        with dict_override(kwargs, {'constants_map': deepcopy(entry_constants_map)}):
+            new_body = self.visit(o.body, **kwargs)
+            body_constants_map = kwargs['constants_map']
+
+        if FindNodes((ir.ExitStmt, ir.CycleStmt)).visit(o.body):
+            # Iterations may be left half-way: only what the loop never touches survives
+            exit_constants_map = entry_constants_map
+        elif executes_once:
+            # The last iteration was executed to its end
+            exit_constants_map = body_constants_map
+        else:
+            # Either no iteration was executed or the last one was executed to its end
+            exit_constants_map = _merge_constants_maps(constants_map, body_constants_map)
+
+        constants_map.clear()
+        constants_map.update(exit_constants_map)
+
+        return new_body
+
     def visit_Loop(self, o, **kwargs):
         constants_map = kwargs.get('constants_map', {})
         mapper = ConstantPropagationMapper()
 
         new_bounds = mapper(o.bounds, constants_map=constants_map)
 
-        # When recursing into loops, send a flag down to trigger detection
-        # of loop-variant assignments ("increment" updates to variables).
-        with dict_override(kwargs, {
-                'within_loop': True, 'constants_map': deepcopy(constants_map)
-        }):
-            kwargs['constants_map'].pop((o.variable.basename, ()), None)
-            new_body = self.visit(o.body, **kwargs)
-
-        lhs_vars = {o.variable}
-        lhs_vars.update(loop.variable for loop in FindNodes(ir.Loop).visit(o.body))
-
-        assignments = FindNodes(ir.Assignment).visit(new_body)
-        for assign in assignments:
-            lhs_vars.add(assign.lhs)
-
-        bounds_are_const = (
-            is_constant(new_bounds.start)
-            and is_constant(new_bounds.stop)
-            and (is_constant(new_bounds.step) or new_bounds.step is None)
-        )
-
-        if bounds_are_const:
-            loop_constants_map = constants_map
-
-            for assign in assignments:
-                if not set(FindVariables().visit(assign.rhs)).intersection(lhs_vars):
-                    assign_kwargs = dict(kwargs)
-                    assign_kwargs['constants_map'] = loop_constants_map
-                    self.visit_Assignment(assign, **assign_kwargs)
-        else:
-            for assign in assignments:
-                invalidate_constants_map(assign.lhs, constants_map)
-
+        modified = _modified_symbols(o.body) + [o.variable]
+        new_body = self._visit_loop_body(o, modified, executes_once=_has_iterations(new_bounds), **kwargs)
         invalidate_constants_map(o.variable, constants_map)
 
         return o._rebuild(bounds=new_bounds, body=new_body)
+
+    def visit_WhileLoop(self, o, **kwargs):
+        new_body = self._visit_loop_body(o, _modified_symbols(o.body), **kwargs)
+        return o._rebuild(body=new_body)
 
     def generate_declarations_map(self, routine):
         """Build the initial constant map from declaration-time initializers."""
